@@ -245,6 +245,9 @@ fn register_stress(bad: &std::sync::Mutex<Vec<String>>, rounds: usize) {
             }
         }
     }
+    // (the register right after the stress writers finished: must be one writer's last write;
+    // judged below, read here before the further races change it)
+    let fin_after_stress = code_of(ColorChoice::global());
     // pair races: two threads write one value each at the same moment; afterwards the register
     // holds one of them (the winner) and writing the *other* one must take effect - an
     // implementation that elides "redundant" stores by comparing with a separate last-request
@@ -282,9 +285,37 @@ fn register_stress(bad: &std::sync::Mutex<Vec<String>>, rounds: usize) {
             break;
         }
     }
+    // pair races with a reset: one thread writes Never and then Auto, the other writes Always.
+    // Once both have finished the register holds the last write of one of them - Auto or Always -
+    // never the Never that its own writer already overwrote (an implementation that keeps "value"
+    // and "overridden" apart can resurrect it).
+    for round in 0..rounds.min(10) {
+        ColorChoice::AlwaysAnsi.write_global();
+        let barrier = std::sync::Arc::new(std::sync::Barrier::new(2));
+        let (b1, b2) = (barrier.clone(), barrier.clone());
+        let t1 = std::thread::spawn(move || {
+            b1.wait();
+            ColorChoice::Never.write_global();
+            ColorChoice::Auto.write_global();
+        });
+        let t2 = std::thread::spawn(move || {
+            b2.wait();
+            ColorChoice::Always.write_global();
+        });
+        t1.join().unwrap();
+        t2.join().unwrap();
+        let fin = ColorChoice::global();
+        if fin != ColorChoice::Auto && fin != ColorChoice::Always {
+            bad.lock().unwrap().push(format!(
+                "reset race {round}: T1 wrote Never then Auto, T2 wrote Always; after both finished global() = {fin:?}, which is neither thread's last write"
+            ));
+            break;
+        }
+    }
     // writers have finished: every further write must be readable at once (a store elided
     // because it "equals the last request" shows here)
-    let fin0 = code_of(ColorChoice::global());
+    let fin0 = fin_after_stress;
+    choice_of(fin0).write_global();
     for v in [1u8, 2, 1, 2] {
         choice_of(v).write_global();
         let got = code_of(ColorChoice::global());
